@@ -1,10 +1,159 @@
 /-
   TE.Driver.Multi — protocol adapters for C16 (see TE/Driver/Count.lean for the conventions).
+  Every `multi.<functional>` request evaluates the *vectorised multi-row* model of
+  TE/Model/Multi.lean (flat select / flat masked scatter / `split(sizes)` / `sum(-1)` and
+  `sum(dim=0)` over the flat data) on the protocol's tensors, with the same shape checks as
+  the adapters of the single-slice families, so that the harness can compare the real
+  multi-task call with the vectorised model (not with a `map` of single-slice models).
 -/
 import TE.Driver.Fam
+import TE.Driver.Curve
+import TE.Driver.Rank
+import TE.Driver.Agg
+import TE.Model.Multi
 namespace TE.Driver
-open TE
+open TE TE.Curve TE.Multi
 
-def multiFns : List (String × (Args → Except Err String)) := []
+namespace MultiA
+
+/-- the flat data of a `(t, n)` tensor with its two extents; a 1-D tensor is `(1, n)`. -/
+def flat2 (x : T) : Nat × Nat × List Q :=
+  match x.shape with
+  | [t, n] => (t, n, x.data)
+  | _ => (1, x.data.length, x.data)
+
+/-- `binary_auroc(input, target, num_tasks=…, weight=…)` through `binaryAurocMulti`. -/
+def fnBinaryAuroc (a : Args) : Except Err String := do
+  let (i, t) ← iot a
+  let w ← liftP (a.tensor? "weight")
+  let nt := (← liftP (a.nat? "num_tasks")).getD 1
+  binaryAurocCheck i t w nt
+  let wr := match w with | some w => w.rows | none => i.rows.map onesLike
+  let vs ← binaryAurocMulti (zip3 i.rows t.rows wr)
+  pure (if i.ndim == 1 then showScalarX (.val (vs.headD 0)) else showVecX (vs.map XQ.val))
+
+/-- `multiclass_auroc` through `multiclassAurocMulti`. -/
+def fnMulticlassAuroc (a : Args) : Except Err String := do
+  let (i, t) ← iot a
+  let nc ← liftP (a.nat "num_classes")
+  match curveAvg a with
+  | none => throw .value
+  | some avg =>
+    if nc < 2 then throw .value
+    multiclassCheck i t (some nc)
+    let r ← multiclassAurocMulti (colsOf i.rows nc) t.data avg
+    pure (showAvg avg r)
+
+/-- `multiclass_precision_recall_curve` through `multiclassPrCurveMulti`. -/
+def fnMulticlassPrCurve (a : Args) : Except Err String := do
+  let (i, t) ← iot a
+  let nc0 ← liftP (a.nat? "num_classes")
+  let nc0 := if nc0.isNone && i.ndim == 2 then i.shape[1]? else nc0
+  multiclassCheck i t nc0
+  let nc := nc0.getD 0
+  let cs ← multiclassPrCurveMulti (colsOf i.rows nc) t.data
+  pure (showPRCs cs)
+
+/-- `click_through_rate(input, weights, num_tasks=…)` through `ctrMulti` / `ctrMultiScalar`. -/
+def fnCtr (a : Args) : Except Err String := do
+  let nt ← liftP (RankA.numTasks a)
+  let i ← liftP (a.tensor "input")
+  let w ← liftP (RankA.weightOf a "weights")
+  if i.ndim != 1 && i.ndim != 2 then throw .value
+  if (match w with | .tensor x => x.shape != i.shape | _ => false) then throw .value
+  if nt == 1 && i.ndim > 1 then throw .value
+  if nt != 1 && (i.ndim == 1 || i.shape.head? != some nt) then throw .value
+  let (t, n, d) := flat2 i
+  let r := match w with
+    | .tensor x => ctrMulti RankA.eps32 t n d x.data
+    | .scalar q => ctrMultiScalar RankA.eps32 t n d q
+  pure (RankA.renderTasksX (i.ndim == 1) r)
+
+/-- `weighted_calibration(input, target, weight, num_tasks=…)` through `wcMulti` / `wcMultiScalar`. -/
+def fnWc (a : Args) : Except Err String := do
+  let nt ← liftP (RankA.numTasks a)
+  let (i, tg) ← RankA.io a
+  let w ← liftP (RankA.weightOf a "weight")
+  if i.shape != tg.shape then throw .value
+  if nt == 1 && i.ndim > 1 then throw .value
+  if nt != 1 && (i.ndim == 1 || i.shape.head? != some nt) then throw .value
+  let (t, n, d) := flat2 i
+  match w with
+  | .scalar q => pure (RankA.renderTasksX (i.ndim == 1) (wcMultiScalar t n d tg.data q))
+  | .tensor x =>
+    if x.shape != i.shape then throw .value
+    pure (RankA.renderTasksX (i.ndim == 1) (wcMulti t n d tg.data x.data))
+
+/-- sample rows of a 1-D (one output) or `(n, d)` tensor. -/
+def sampleRows (x : T) : Option (Mat × Nat × Bool) :=
+  match x.shape with
+  | [_] => some (x.data.map ([·]), 1, false)
+  | [_, d] => some (x.rows, d, true)
+  | _ => none
+
+/-- `mean_squared_error(input, target, sample_weight=…, multioutput=…)` through `mseMulti`. -/
+def fnMse (a : Args) : Except Err String := do
+  let mo := a.strD "multioutput" "uniform_average"
+  if !(mo == "raw_values" || mo == "uniform_average") then throw .value
+  let i ← liftP (a.tensor "input"); let t ← liftP (a.tensor "target")
+  let w ← optData a "sample_weight"
+  if i.ndim ≥ 3 || t.ndim ≥ 3 then throw .value
+  if i.shape != t.shape then throw .value
+  match w with
+  | some w => if w.shape.head? != t.shape.head? then throw .value
+  | none => pure ()
+  match sampleRows i, sampleRows t with
+  | some (xr, d, two), some (tr, _, _) =>
+    let wv ← (match w with
+      | none => pure none
+      | some w => if w.ndim != 1 then throw .other else pure (some w.data))
+    let uniform := mo == "uniform_average"
+    let r := mseMulti uniform wv xr tr d
+    pure (if two && !uniform then showVecX r else showScalarX (r.headD .nan))
+  | _, _ => throw .other
+
+/-- `r2_score(input, target, multioutput=…, num_regressors=…)` through `r2Multi`. -/
+def fnR2 (a : Args) : Except Err String := do
+  let mo := parseMultiOut (a.strD "multioutput" "uniform_average")
+  let p : Int ← liftP (match a.get? "num_regressors" with | none => pure 0 | some _ => a.int "num_regressors")
+  match mo with
+  | none => throw .value
+  | some mo =>
+    if p < 0 then throw .value
+    let i ← liftP (a.tensor "input"); let t ← liftP (a.tensor "target")
+    if i.ndim ≥ 3 || t.ndim ≥ 3 then throw .value
+    if i.shape != t.shape then throw .value
+    match sampleRows i, sampleRows t with
+    | some (xr, d, two), some (tr, _, _) =>
+      let r ← r2Multi xr tr d mo p.toNat
+      pure (if two && mo == .raw then showVecX r else showScalarX (r.headD .nan))
+    | _, _ => throw .other
+
+/-- one `update` of `WeightedCalibration(num_tasks=…)` followed by `compute()`, through `wcClassCompute`. -/
+def fnWcClass (a : Args) : Except Err String := do
+  let nt ← liftP (RankA.numTasks a)
+  let s ← RankA.wcStat nt a
+  pure (showVecX (wcClassCompute s))
+
+/-- one `update` of `BinaryNormalizedEntropy(num_tasks=…)` followed by `compute()`, through `bneClassCompute`. -/
+def fnBneClass (a : Args) : Except Err String := do
+  let nt := (← liftP (a.nat? "num_tasks")).getD 1
+  let fl := a.bool "from_logits" false
+  let (x, t, w, _) ← bneArgs a nt fl
+  pure (showVecX (bneClassCompute lnF (bneRows fl x t w)))
+
+end MultiA
+
+def multiFns : List (String × (Args → Except Err String)) := [
+  ("multi.binary_auroc", MultiA.fnBinaryAuroc),
+  ("multi.multiclass_auroc", MultiA.fnMulticlassAuroc),
+  ("multi.multiclass_precision_recall_curve", MultiA.fnMulticlassPrCurve),
+  ("multi.click_through_rate", MultiA.fnCtr),
+  ("multi.weighted_calibration", MultiA.fnWc),
+  ("multi.mean_squared_error", MultiA.fnMse),
+  ("multi.r2_score", MultiA.fnR2),
+  ("multi.class.weighted_calibration", MultiA.fnWcClass),
+  ("multi.class.binary_normalized_entropy", MultiA.fnBneClass)
+]
 
 end TE.Driver
